@@ -8,6 +8,7 @@ from props.common import prepare  # noqa: F401
 from props import c02
 
 PROP = "C07"
+NEUTRALISE = ("D3",)
 LEVEL_TEXT = ("Bounded symbolic execution of every numeric derivative route (Partial.at, Derivative.at, Differential.at, "
               "Differential.component_at, LocatedDifferential(...), late and compute_early) together with e.at(p) on the SAME path: "
               "per path z3 decides 'the route raises DomainError <=> the point is outside the strict domain' (and the evaluator's own "
@@ -52,6 +53,8 @@ def jobs(tier, seed):
             add(d, ["deriv", "deriv_early"], var=(vs or ["x"])[0], supplied=vs)
     for d in fam.f1_shared(tier):
         add(d, LATE[:2] + EARLY[:1], var="x")
+    for d in [["NthRoot", ["NthPower", fam.X, 4], 16], ["NthRoot", ["NthRoot", ["NthPower", fam.X, 2], 2], 2]]:
+        add(d, LATE[:2] + EARLY[:2], var="x")          # inside the region of known finding D3 (the early routes inherit the mis-simplified derivative)
     f2 = fam.f2_quick(6, 4) if tier == "quick" else fam.f2("thorough")
     for d in f2:
         add(d, ["fwd", "rev"], var="x")
